@@ -54,6 +54,43 @@ pub struct ReqSpec {
     /// sides then exchange `body_len` / `resp_len` raw bytes over the taken-over connection
     #[serde(default)]
     pub upgrade: bool,
+    /// seed of a generated set of further headers on the request and on the response (0: none):
+    /// repeated names, long, empty and opaque (non-ASCII) values - see `extra_headers`
+    #[serde(default)]
+    pub hdrs: u8,
+}
+
+/// Deterministic extra headers for request (`dir` 0) or response (`dir` 1) number `id`.
+pub fn extra_headers(id: usize, hdrs: u8, dir: u8) -> Vec<(&'static str, Vec<u8>)> {
+    const NAMES: [&str; 7] = ["x-a", "x-dup", "x-b", "x-dup", "x-long", "x-empty", "x-bin"];
+    let n = (hdrs % 8) as usize;
+    (0..n)
+        .map(|k| {
+            let name = NAMES[(k + hdrs as usize / 8) % NAMES.len()];
+            let seed = id * 131 + hdrs as usize * 7 + k;
+            let value: Vec<u8> = match name {
+                "x-long" => vec![b'v'; 200 + (seed * 37) % 3000],
+                "x-empty" => vec![],
+                "x-bin" => (0..1 + seed % 8).map(|j| 0x80 + ((seed + j * 13) % 0x7f) as u8).collect(),
+                _ => format!("{dir}-{id}-{hdrs}-{k}").into_bytes(),
+            };
+            (name, value)
+        })
+        .collect()
+}
+
+/// Compares the generated extra headers with what arrived, per name and in order.
+pub fn extra_headers_problem(headers: &http::HeaderMap, id: usize, hdrs: u8, dir: u8) -> Option<String> {
+    let want = extra_headers(id, hdrs, dir);
+    for name in ["x-a", "x-dup", "x-b", "x-long", "x-empty", "x-bin"] {
+        let w: Vec<&[u8]> = want.iter().filter(|(n, _)| *n == name).map(|(_, v)| v.as_slice()).collect();
+        let g: Vec<&[u8]> = headers.get_all(name).iter().map(|v| v.as_bytes()).collect();
+        if w != g {
+            let show = |v: &Vec<&[u8]>| v.iter().map(|b| format!("{} bytes {:?}", b.len(), String::from_utf8_lossy(&b[..b.len().min(24)]))).collect::<Vec<_>>().join(", ");
+            return Some(format!("header {name}: sent [{}], arrived [{}]", show(&w), show(&g)));
+        }
+    }
+    None
 }
 
 pub const UPGRADE_PROTO: &str = "hdv-echo";
@@ -399,7 +436,7 @@ impl tower::Service<http::request::Parts> for RouteTransport {
 #[derive(Clone, Debug, PartialEq)]
 pub enum ClientOutcome {
     /// status, x-id header, x-origin header, x-conn header, body matched expectation, body length
-    Ok { status: u16, id_hdr: Option<usize>, origin_hdr: Option<usize>, conn: Option<usize>, body_ok: bool, body_len: usize },
+    Ok { status: u16, id_hdr: Option<usize>, origin_hdr: Option<usize>, conn: Option<usize>, body_ok: bool, body_len: usize, hdr_problem: Option<String> },
     /// response head arrived but the body failed
     BodyErr(String),
     Err(String),
@@ -507,6 +544,9 @@ async fn handle(ctx: Arc<SrvCtx>, conn: usize, req: http::Request<hyperdriver::B
     if parts.headers.get("x-keep").map(|v| v.as_bytes()) != Some(format!("v{id}").as_bytes()) {
         problems.push("x-keep header lost or altered".to_string());
     }
+    if let Some(p) = extra_headers_problem(&parts.headers, id, spec.hdrs, 0) {
+        problems.push(p);
+    }
     let upgrading = ctx.upgrades[id] && parts.headers.get(http::header::UPGRADE).map(|v| v.as_bytes()) == Some(UPGRADE_PROTO.as_bytes());
     if ctx.upgrades[id] && !upgrading {
         problems.push("upgrade header lost or altered".to_string());
@@ -559,24 +599,24 @@ async fn handle(ctx: Arc<SrvCtx>, conn: usize, req: http::Request<hyperdriver::B
             let now = obs.lock().unwrap().now();
             obs.lock().unwrap().upgrades.push((id, server, conn, now, problem));
         });
-        return Ok(http::Response::builder()
+        let mut b = http::Response::builder()
             .status(101)
             .header(http::header::CONNECTION, "upgrade")
             .header(http::header::UPGRADE, UPGRADE_PROTO)
             .header("x-id", id)
             .header("x-origin", ctx.server)
-            .header("x-conn", conn)
-            .body(ChunkBody::default())
-            .unwrap());
+            .header("x-conn", conn);
+        for (n, v) in extra_headers(id, spec.hdrs, 1) {
+            b = b.header(n, http::HeaderValue::from_bytes(&v).unwrap());
+        }
+        return Ok(b.body(ChunkBody::default()).unwrap());
     }
     let data: Vec<u8> = (0..spec.resp_len as usize).map(|i| resp_byte(id, i)).collect();
-    Ok(http::Response::builder()
-        .status(200 + (id % 3) as u16)
-        .header("x-id", id)
-        .header("x-origin", ctx.server)
-        .header("x-conn", conn)
-        .body(ChunkBody::new(data, spec.resp_chunks as usize, spec.resp_gap as u64, spec.resp_chunks % 2 == 0))
-        .unwrap())
+    let mut b = http::Response::builder().status(200 + (id % 3) as u16).header("x-id", id).header("x-origin", ctx.server).header("x-conn", conn);
+    for (n, v) in extra_headers(id, spec.hdrs, 1) {
+        b = b.header(n, http::HeaderValue::from_bytes(&v).unwrap());
+    }
+    Ok(b.body(ChunkBody::new(data, spec.resp_chunks as usize, spec.resp_gap as u64, spec.resp_chunks % 2 == 0)).unwrap())
 }
 
 /// Server half of the raw exchange on a taken-over connection: read exactly the client's bytes,
@@ -751,6 +791,12 @@ fn build_request(case: &NetCase, id: usize, spec: &ReqSpec) -> http::Request<Chu
             .header(http::header::CONNECTION, "upgrade")
             .header(http::header::UPGRADE, UPGRADE_PROTO)
             .body(ChunkBody::default())
+            .map(|mut r| {
+                for (n, v) in extra_headers(id, spec.hdrs, 0) {
+                    r.headers_mut().append(n, http::HeaderValue::from_bytes(&v).unwrap());
+                }
+                r
+            })
             .unwrap();
     }
     http::Request::builder()
@@ -768,20 +814,27 @@ fn build_request(case: &NetCase, id: usize, spec: &ReqSpec) -> http::Request<Chu
         // hyper's HTTP/1 client does not send a body of unknown length with GET (chunked encoding is
         // not used for GET/HEAD/CONNECT), so GET bodies always carry an exact size hint
         .body(ChunkBody::new(data, spec.body_chunks as usize, spec.body_gap as u64, spec.exact_hint || spec.method as usize % METHODS.len() == 0))
+        .map(|mut r| {
+            for (n, v) in extra_headers(id, spec.hdrs, 0) {
+                r.headers_mut().append(n, http::HeaderValue::from_bytes(&v).unwrap());
+            }
+            r
+        })
         .unwrap()
 }
 
-async fn run_request(svc: ClientSvc, req: http::Request<ChunkBody>, id: usize, resp_len: usize, upgrade: Option<ReqSpec>) -> ClientOutcome {
+async fn run_request(svc: ClientSvc, req: http::Request<ChunkBody>, id: usize, resp_len: usize, hdrs: u8, upgrade: Option<ReqSpec>) -> ClientOutcome {
     match svc.oneshot(req).await {
         Err(e) => ClientOutcome::Err(format!("{e}")),
         Ok(resp) if upgrade.is_some() && resp.status() == http::StatusCode::SWITCHING_PROTOCOLS => {
             let spec = upgrade.unwrap();
             let hdr = |n: &str| resp.headers().get(n).and_then(|v| v.to_str().ok()).and_then(|v| v.parse::<usize>().ok());
             let (id_hdr, origin_hdr, conn) = (hdr("x-id"), hdr("x-origin"), hdr("x-conn"));
+            let hdr_problem = extra_headers_problem(resp.headers(), id, hdrs, 1);
             match hyper::upgrade::on(resp).await {
                 Err(e) => ClientOutcome::BodyErr(format!("client-side upgrade failed: {e}")),
                 Ok(up) => match upgraded_client_half(hyperdriver::bridge::io::TokioIo::new(up), id, &spec).await {
-                    Ok((body_ok, body_len)) => ClientOutcome::Ok { status: 101, id_hdr, origin_hdr, conn, body_ok, body_len },
+                    Ok((body_ok, body_len)) => ClientOutcome::Ok { status: 101, id_hdr, origin_hdr, conn, body_ok, body_len, hdr_problem },
                     Err(e) => ClientOutcome::BodyErr(e),
                 },
             }
@@ -794,7 +847,7 @@ async fn run_request(svc: ClientSvc, req: http::Request<ChunkBody>, id: usize, r
                 Ok(c) => {
                     let b = c.to_bytes();
                     let body_ok = b.len() == resp_len && b.iter().enumerate().all(|(i, x)| *x == resp_byte(id, i));
-                    ClientOutcome::Ok { status: parts.status.as_u16(), id_hdr: hdr("x-id"), origin_hdr: hdr("x-origin"), conn: hdr("x-conn"), body_ok, body_len: b.len() }
+                    ClientOutcome::Ok { status: parts.status.as_u16(), id_hdr: hdr("x-id"), origin_hdr: hdr("x-origin"), conn: hdr("x-conn"), body_ok, body_len: b.len(), hdr_problem: extra_headers_problem(&parts.headers, id, hdrs, 1) }
                 }
             }
         }
@@ -929,7 +982,7 @@ pub fn run_net_case(case: &NetCase) -> Result<Obs, String> {
                     tokio::time::sleep(Duration::from_millis(spec.start as u64)).await;
                     let req = build_request(&case2, id, &spec);
                     let up = if is_upgrade(&case2, &spec) { Some(spec.clone()) } else { None };
-                    let fut = run_request(svc, req, id, spec.resp_len as usize, up);
+                    let fut = run_request(svc, req, id, spec.resp_len as usize, spec.hdrs, up);
                     let outcome = match spec.cancel_at {
                         Some(c) => {
                             let d = (c as u64).saturating_sub(spec.start as u64);
@@ -982,7 +1035,7 @@ pub fn run_net_case(case: &NetCase) -> Result<Obs, String> {
                         Ok(resp) => {
                             let status = resp.status().as_u16();
                             match resp.into_body().collect().await {
-                                Ok(_) => ClientOutcome::Ok { status, id_hdr: None, origin_hdr: None, conn: None, body_ok: true, body_len: 0 },
+                                Ok(_) => ClientOutcome::Ok { status, id_hdr: None, origin_hdr: None, conn: None, body_ok: true, body_len: 0, hdr_problem: None },
                                 Err(e) => ClientOutcome::BodyErr(format!("{e}")),
                             }
                         }
@@ -1027,7 +1080,7 @@ pub fn run_net_case(case: &NetCase) -> Result<Obs, String> {
 pub fn req_strategy(nsrv: u8, allow_cancel: bool, allow_error: bool) -> impl proptest::strategy::Strategy<Value = ReqSpec> {
     use proptest::prelude::*;
     (
-        (0..nsrv, any::<bool>(), 0u8..6),
+        (0..nsrv, any::<bool>(), 0u8..6, prop_oneof![2 => Just(0u8), 3 => any::<u8>()]),
         prop_oneof![2 => 0u16..6, 2 => 0u16..40, 1 => 40u16..120],
         (prop_oneof![2 => Just(0u16), 2 => 1u16..300, 1 => 300u16..20000], 1u8..6, prop_oneof![3 => Just(0u8), 1 => 1u8..4], any::<bool>()),
         prop_oneof![2 => Just(0u8), 2 => 1u8..12, 1 => 12u8..40],
@@ -1036,7 +1089,7 @@ pub fn req_strategy(nsrv: u8, allow_cancel: bool, allow_error: bool) -> impl pro
         if allow_error { prop_oneof![9 => Just(false), 1 => Just(true)].boxed() } else { Just(false).boxed() },
         prop_oneof![3 => Just(0u8), 2 => Just(1u8), 1 => Just(2u8), 2 => Just(3u8)],
     )
-        .prop_map(|((server, h2, method), start, (body_len, body_chunks, body_gap, exact_hint), handler_delay, (resp_len, resp_chunks, resp_gap), cancel, handler_error, target)| ReqSpec {
+        .prop_map(|((server, h2, method, hdrs), start, (body_len, body_chunks, body_gap, exact_hint), handler_delay, (resp_len, resp_chunks, resp_gap), cancel, handler_error, target)| ReqSpec {
             server,
             h2,
             method,
@@ -1053,6 +1106,7 @@ pub fn req_strategy(nsrv: u8, allow_cancel: bool, allow_error: bool) -> impl pro
             handler_error,
             target,
             upgrade: false,
+            hdrs,
         })
 }
 
